@@ -3,6 +3,7 @@ import copy
 import itertools
 import json
 import os
+import sys
 
 ID = "C04"
 TITLE = "searcher: every recorded rule is a strategy of the table applied to the class carrying the parent label"
@@ -28,7 +29,17 @@ RULE = (
     "the real queue and the answers of ruledb.is_verified are recorded and replayed by the model. "
     "Non-trivial: >= 4 labels, >= 4 ruledb.add calls, and at least one of: a dropped empty child, a "
     "foreign-parent rule, a lazily failing rule, a filtered self-equivalence, a symmetry image, an inferral "
-    "chain of length >= 2; distinct = distinct (universe, configuration)."
+    "chain of length >= 2; distinct = distinct (universe, configuration). 15% of the cases (WORD_SHARE) are REAL WORD "
+    "SEARCHES (harness/universes/words_c04.py): the 19 named packs of words_ext (symmetries, inferral, factories "
+    "yielding strategies / ready rules / rules with a foreign parent, non-atom verification with packs, one-way rules, "
+    "two expansion sets, products with >= 3 factors, iterative), the parametric ow3|... family, the 10 packs of "
+    "words_c14, and 2 contrived packs whose factory yields a rule for an EMPTY foreign parent; random start classes "
+    "(prefix 0-3, 0-3 patterns over 2-3 letters, 28 fixed specs incl. empty start classes); the four databases, "
+    "expand_verified on/off, both drivers; the search is cut after 4-45 work packets (word universes are infinite). "
+    "After the search the pack's strategies (and what its factories yield) are RE-APPLIED to every labelled class and "
+    "every foreign parent (Tabulator04: children, is_two_way, is_reversible, shifts, the object's own flags, "
+    "is_empty of every class) - that table + the recorded packets / is_verified answers go through run_c04, and the "
+    "oracle decides from the same table. 12 + 4 hand-picked word searches are in harness/corpus/C04/words_*."
 )
 TRUSTED = [
     "modelled, not verified: comb_spec_searcher.py (__init__, try_verify, _expand, _rules_from_strategy, "
@@ -40,17 +51,39 @@ TRUSTED = [
     "run and replayed; the theorems quantify over all packet sequences and all answer sequences",
     "the logging wrappers of this plugin (queue proxy, instance-level wrappers of ruledb.add / is_verified, "
     "classdb.set_empty / is_empty, equivdb edge methods, the two rule stores, table_method.add_rule_key)",
+    "word searches reach the model and the oracle through a tabulation (harness/universes/words_c04.py Tabulator04 "
+    "on top of words_c14.Tabulator): strategy ids follow StrategyPack.__iter__, strategies compare by type and ==, "
+    "classes are numbered on first sight; a factory item is tabulated as an eagerly built ready rule (a real rule "
+    "object computes its children lazily: on a class it does not apply to both are no-ops for the trace). What the "
+    "tabulator could not express would be strategy.shifts / is_reversible raising (counted: never observed)",
     "the wrapper around RecomputingDict.pop (counts and rolls back side effects of a recomputation on the class "
     "database) is inert since fix e80f5df: RuleDBBase.add removes superseded one-way keys with `del`, which does "
     "not recompute (evidence: 0 / 0 / 0 cases)",
 ]
+# measured values quoted in the strings (quick tier, seeds 0-2; extra_checks prints the numbers of the run)
+W_STRONG = "56-58%"
+W_PRUNED = "about 95%"
+W_REST = "4-5%"
 ASSUMPTIONS = [
     "strategies are pure functions of the class (the table); strategy objects compare equal iff they have the same table id",
     "factories list plain strategies only; shifts have one entry per child",
-    "C04_set_empty_consistent, C04_empty_cache_truthful and the WHOLE of C04_stored_key / C04_stored_key_all_children "
-    "(both halves: dropped => truly empty, kept => not (possibly_empty and empty)) are proved under the two table "
-    "contracts of Searcher/Contracts.v (pe_contract T pack, sym_contract T) and for packets that carry strategies of "
-    "the pack (packets_in; the oracle checks it on every real run); contract-free is only C04_stored_key_partial "
+    "C04_dropped_only_if_empty (a child missing from a stored key is a child of a possibly_empty rule AND truly "
+    "empty), C04_set_empty_true_truthful and C04_cache_empty_truthful_one_sided need sym_contract ALONE - in fact only "
+    "its forward half sym_fwd (the image of an EMPTY class under a symmetry is empty) -, no pe_contract and no "
+    "condition on the packets; sym_fwd is necessary and pe_contract cannot replace it "
+    "(C04_dropped_only_if_empty_needs_sym_fwd, replayed on the real code: harness/corpus/C04/needs_sym_fwd-*). MEASURED "
+    "on the real word searches of a quick run (seeds 0-2): sym_contract holds in 100% of them. "
+    "C04_set_empty_consistent, C04_empty_cache_truthful (both directions) and the CONVERSE half of C04_stored_key / "
+    "C04_stored_key_all_children (kept => not (possibly_empty and empty)) still need both table "
+    "contracts of Searcher/Contracts.v (pe_contract T pack, sym_contract T) and packets that carry strategies of "
+    "the pack (packets_in; the oracle checks it on every real run): C04_kept_although_empty_without_pe_contract shows "
+    "pe_contract is needed for the converse. MEASURED on real word searches: the tabulated table honours the strong "
+    "contract in " + W_STRONG + " of them; in " + W_PRUNED + " it does after the entries no run touched are removed "
+    "(the tabulator applies every strategy to every labelled class, empty ones included; the searcher never presents an "
+    "empty class to them) AND the model reproduces the real trace on the pruned table - so the contract theorems cover "
+    "those runs; the rest (" + W_REST + ") are the two contrived packs, where clause (b) of pe_contract is exercised "
+    "and violated by the run itself (set_empty(child, False) cached for an empty class). With the repo's own word "
+    "packs clause (b) is never exercised by a run (0 searches). Contract-free is only C04_stored_key_partial "
     "(labels of all children - or the first one for a symmetry call -, nothing dropped unless possibly_empty). The "
     "contracts were restated: the former pe_contract also bound symmetry strategies on empty classes and contradicted "
     "sym_contract there (C04_old_contracts_exclude_each_other). The documented contract alone (possibly_empty=False => "
@@ -80,6 +113,8 @@ def _buckets():
 def norm_flags(st):
     """flags of the strategy OBJECT table.py builds for this kind"""
     f = st["flags"]
+    if st.get("raw"):        # tabulated REAL strategy (harness/universes/words_c04.py): the object's own flags
+        return [int(bool(x)) for x in f]
     if st["kind"] == "V":
         return [int(bool(f[0])), 0, 0, 0]
     if st["kind"] == "Y":
@@ -131,6 +166,22 @@ def sym_contract(u):
             for (s2, p) in yields(u, sid, c):
                 e = u["strats"][s2]["apply"].get(str(p))
                 if e and e["children"] and em[e["children"][0]] != em[c]:
+                    return False
+    return True
+
+
+def sym_fwd(u):
+    """Searcher/OneSidedDefs.v sym_fwd, the forward half of sym_contract (hypothesis of C04_dropped_only_if_empty_fwd,
+    C04_set_empty_true_truthful, C04_cache_empty_truthful_one_sided): the first child of every rule a symmetry of
+    the pack yields on an EMPTY class is empty"""
+    em = u["empty"]
+    for sid in u["pack"]["sym"]:
+        for c in range(u["ncls"]):
+            if not em[c]:
+                continue
+            for (s2, p) in yields(u, sid, c):
+                e = u["strats"][s2]["apply"].get(str(p))
+                if e and e["children"] and not em[e["children"][0]]:
                     return False
     return True
 
@@ -222,8 +273,30 @@ def gen_universe(rng):
     return R.rich_universe(rng, ncls=rng.randint(2, 3) if x < 0.27 else None)
 
 
+WORD_SHARE = float(os.environ.get("C04_WORD_SHARE", "0.15"))   # (the variable is for experiments: 1 = word searches only)
+
+
+def gen_words(rng):
+    """a REAL word search (harness/universes/words_c04.py): pack, start class, how many packets are processed"""
+    from harness.universes import words_c04 as W4
+
+    name = W4.random_pack_name(rng)
+    x = rng.random()
+    return {
+        "words": {"pack": name, "start": W4.random_start(rng, name),
+                  "maxp": rng.choice([4, 8, 12, 20, 30, 45])},
+        "db": rng.choice([0, 0, 1, 2, 3, 3]),
+        "ev": 1 if rng.random() < 0.35 else 0,
+        "comp": 0,
+        "drv": 0 if x < 0.7 else 1,
+    }
+
+
 def gen(rng, tier):
     while True:
+        if rng.random() < WORD_SHARE:
+            yield gen_words(rng)
+            continue
         u = gen_universe(rng)
         yield {
             "u": u,
@@ -245,9 +318,11 @@ class _Ctx:
         self.limit_hits = 0
         self.pop_fills = 0      # emptiness-cache entries filled by RecomputingDict.pop (rolled back)
         self.pop_allocs = []    # classes RecomputingDict.pop gave a label to (rolled back)
+        self.capped = False     # word searches: the packet budget was reached
+        self.via_add_rule = []  # per ruledb.add call: made by add_rule (1) or by _symmetry_expand (0)
 
 
-def _sid(strategy):
+def _sid_table(strategy):
     return getattr(strategy, "sid", -1)
 
 
@@ -267,12 +342,25 @@ def _run_real(case):
 
     ctx = _Ctx()
     ev = ctx.events
-    u = copy.deepcopy(case["u"])
-    u.pop("uid", None)
-    u["uid"] = "c04-%d-%d" % (os.getpid(), len(T.UNIVERSES))
-    uid = T.register(u)
+    words = case.get("words")
+    uid = None
+    if words:
+        # a REAL word search: classes and strategies are numbered on first sight by the tabulator
+        from harness.universes import words_c04 as W4
+
+        w_pack = W4.make_pack(words["pack"])
+        tab = W4.Tabulator04(w_pack)
+        w_start = W4.start_class(words["start"])
+        tab.cls(w_start)
+        _sid, _cls, maxp = tab.sid, tab.cls, int(words["maxp"])
+    else:
+        _sid, _cls, maxp = _sid_table, (lambda c: c.n), None
+        u = copy.deepcopy(case["u"])
+        u.pop("uid", None)
+        u["uid"] = "c04-%d-%d" % (os.getpid(), len(T.UNIVERSES))
+        uid = T.register(u)
     try:
-        pack = T.make_pack(uid)
+        pack = w_pack if words else T.make_pack(uid)
 
         class QueueProxy(CSSQueue):
             """forwards to a real DefaultQueue; only calls coming from outside are logged"""
@@ -298,12 +386,19 @@ def _run_real(case):
                 self.q.set_stop_yielding(label)
 
             def _log(self, wp):
+                if maxp is not None and len(ctx.packets) >= maxp:
+                    ctx.capped = True       # word universes are infinite: the search is cut after maxp packets
+                    raise StopIteration
                 ctx.packets.append([wp.label, [_sid(s) for s in wp.strategies], int(bool(wp.inferral))])
                 return wp
 
             def do_level(self):
                 for wp in self.q.do_level():
-                    yield self._log(wp)
+                    try:
+                        wp = self._log(wp)
+                    except StopIteration:
+                        return
+                    yield wp
 
             def status(self):
                 return self.q.status()
@@ -358,7 +453,7 @@ def _run_real(case):
                     return default[0] if default else None
                 finally:
                     if len(cdb.comb_class_list) > n0:
-                        ctx.pop_allocs.extend(cdb.get_class(i).n for i in range(n0, len(cdb.comb_class_list)))
+                        ctx.pop_allocs.extend(_cls(cdb.get_class(i)) for i in range(n0, len(cdb.comb_class_list)))
                         for k in [k for k, l in cdb.label_dict.items() if l >= n0]:
                             del cdb.label_dict[k]
                         del cdb.comb_class_list[n0:]
@@ -409,9 +504,10 @@ def _run_real(case):
         orig_add = ruledb.add
 
         def add(start, ends, rule):
-            ev.append([0, start, list(ends), _sid(rule.strategy), rule.comb_class.n])
+            ev.append([0, start, list(ends), _sid(rule.strategy), _cls(rule.comb_class)])
+            ctx.via_add_rule.append(int(sys._getframe(1).f_code.co_name == "add_rule"))  # pylint: disable=protected-access
             prev = ctx.cur_parent
-            ctx.cur_parent = rule.comb_class.n
+            ctx.cur_parent = _cls(rule.comb_class)
             try:
                 return orig_add(start, ends, rule)
             finally:
@@ -429,7 +525,7 @@ def _run_real(case):
 
         from comb_spec_searcher.class_db import ClassDB
 
-        start = T.start_class(uid, bool(case["comp"]))
+        start = w_start if words else T.start_class(uid, bool(case["comp"]))
         classdb = ClassDB(type(start))
         o_ie, o_se = classdb.is_empty, classdb.set_empty
 
@@ -457,7 +553,7 @@ def _run_real(case):
             )
             if case["drv"] == 0:
                 more, _ = css._expand_classes_for(1e9, None, 0, 0)
-                if more:
+                if more:      # (a capped word search ends by StopIteration of the queue proxy: more is False)
                     status, exc = 50, "queue not exhausted"
             else:
                 for _ in range(100000):
@@ -465,13 +561,16 @@ def _run_real(case):
                         css.do_level()
                     except NoMoreClassesToExpandError:
                         break
+                    if ctx.capped:
+                        break
                 else:
                     status, exc = 50, "do_level never ran dry"
         except (KeyError, IndexError, StrategyDoesNotApply) as ex:
             status, exc = ERRCODE[type(ex).__name__], "%s: %s" % (type(ex).__name__, ex)
         final = None
         if classdb is not None:
-            classes = [classdb.get_class(i).n for i in range(len(classdb.comb_class_list))]
+            labelled = [classdb.get_class(i) for i in range(len(classdb.comb_class_list))]
+            classes = [_cls(c) for c in labelled]
             empties = [-1 if e is None else int(bool(e)) for e in classdb.empty_list]
             final = {"classes": classes, "empties": empties}
             if css is not None:
@@ -485,9 +584,15 @@ def _run_real(case):
             else:
                 final["nr"] = final["ne"] = 0
                 final["already"] = sorted(ruledb._already_empty)
+        if words and final is not None:
+            # the strategies of the pack (and what its factories yield) RE-APPLIED to every labelled class and to
+            # every foreign parent: the table the model replays on and the oracle decides from
+            final["u"] = tab.universe(w_start, labelled)
+            final["limits"] = dict(tab.limits)
         return ctx, css, status, exc, final
     finally:
-        T.UNIVERSES.pop(uid, None)
+        if uid is not None:
+            T.UNIVERSES.pop(uid, None)
 
 
 def _enc_universe(u):
@@ -505,18 +610,34 @@ def _enc_universe(u):
     return [list(u["empty"]), strats, list(u["pack"]["ver"]), list(u["pack"]["sym"])]
 
 
-def encode(case):
-    """the table + the packets and is_verified answers recorded from the real run"""
-    u = case["u"]
-    try:
-        ctx, _css, _status, _exc, _final = _run_real(case)
-    except BaseException:  # pylint: disable=broad-except
+def universe_of(case, res=None):
+    """the strategy table of a case: given (table universes) or tabulated from the real strategies after the real
+    search (word universes: res["u"]); None when a word search died before anything could be tabulated"""
+    if "u" in case:
+        return case["u"]
+    return res.get("u") if isinstance(res, dict) else None
+
+
+EMPTY_U = {"ncls": 1, "empty": [0], "strats": [], "pack": {"initial": [], "inferral": [], "expansion": [], "ver": [], "sym": []},
+           "start": 0}
+
+
+def encode_with(case, res):
+    """the table + the packets and is_verified answers recorded from the real run (impl's result)"""
+    u = universe_of(case, res)
+    packets, answers = res.get("packets", []), res.get("answers", [])
+    if u is None:
         # the real run died in an unforeseen way: impl() reports it; give the model an empty replay
-        ctx = _Ctx()
+        u, packets, answers = EMPTY_U, [], []
     mode = {0: 0, 1: 0, 2: 1, 3: 2}[case["db"]]
     fuel = 2 * u["ncls"] + 12
     empty, strats, ver, sym = _enc_universe(u)
-    return [[mode, case["ev"], case["drv"], fuel, u["start"]], empty, strats, ver, sym, ctx.packets, ctx.answers]
+    return [[mode, case["ev"], case["drv"], fuel, u["start"]], empty, strats, ver, sym, packets, answers]
+
+
+def encode(case):
+    """(kept for callers without an impl result: runs the real search once more)"""
+    return encode_with(case, impl(case))
 
 
 def impl(case):
@@ -526,9 +647,15 @@ def impl(case):
     f = final
     out = [status, 0, ctx.events, f["classes"], f["empties"], f.get("tried", []), f.get("symexp", []),
            f.get("infexp", []), f["nr"], f["ne"], f["already"]]
-    return {"out": out, "status": status, "exc": exc, "limit_hits": ctx.limit_hits,
-            "pop_fills": ctx.pop_fills, "pop_allocs": ctx.pop_allocs,
-            "npackets": len(ctx.packets), "nanswers": len(ctx.answers), "packets": ctx.packets}
+    res = {"out": out, "status": status, "exc": exc, "limit_hits": ctx.limit_hits,
+           "pop_fills": ctx.pop_fills, "pop_allocs": ctx.pop_allocs,
+           "npackets": len(ctx.packets), "nanswers": len(ctx.answers), "packets": ctx.packets,
+           "answers": ctx.answers, "via_add_rule": ctx.via_add_rule}
+    if "words" in case:
+        res["u"] = f.get("u")
+        res["limits"] = f.get("limits", {})
+        res["capped"] = int(ctx.capped)
+    return res
 
 
 # ----------------------------------------------------------------- oracle
@@ -570,12 +697,25 @@ def oracle(case, res):
     """The PROPERTY, decided on the logged behaviour straight from the table (never through the model)."""
     if "exception" in res:
         return "implementation raised " + res["exception"]
-    u = case["u"]
+    u = universe_of(case, res)
+    if u is None:
+        return "the word search left nothing to tabulate: %r" % (res.get("exc"),)
     out = res["out"]
+    if "words" in case:
+        why = _word_oracle(case, res, u)
+        if why:
+            return why
     status, events, classes = out[0], out[2], out[3]
     em = u["empty"]
     strong = strong_contract(u)
-    symok = sym_contract(u)     # the only set_empty(.., True) the searcher issues is the one of _symmetry_expand
+    # the only set_empty(.., True) the searcher issues is the one of _symmetry_expand: under sym_fwd ALONE (no
+    # pe_contract) whatever the cache / a set_empty call / a dropped child says "empty" about IS empty
+    # (C04_dropped_only_if_empty_fwd, C04_set_empty_true_truthful, C04_cache_empty_truthful_one_sided)
+    symok = sym_fwd(u)
+    if symok:
+        for i, (c, e_) in enumerate(zip(classes, out[4])):
+            if e_ == 1 and not em[c]:
+                return "the emptiness cache says EMPTY for label %d = class %d, which is not empty" % (i, c)
     if status != 0 and strong and arity_contract(u):
         return "the search died with %s on a universe honouring the contracts" % res.get("exc")
     # hypothesis packets_in of the contract theorems: the queue hands out strategies of the pack only
@@ -656,7 +796,7 @@ def oracle(case, res):
                                if x[0] == 0 and x[3] == -1 and x[1] == l]
                         if not nxt:
                             return "empty child (class %d, label %d) of a possibly_empty rule never received its empty rule" % (c, l)
-        elif tag == 1 and strong:
+        elif tag == 1 and (strong or (symok and e[2] == 1)):
             _, l, v = e
             if not (0 <= l < nlab):
                 return "set_empty on unknown label %r" % (e,)
@@ -724,6 +864,167 @@ def oracle(case, res):
     return None
 
 
+def pe_measure(u, out, via=None):
+    """How much clause (b) of Searcher/Contracts.v pe_contract matters on this universe - decided from the table
+    (for word universes: from the real strategies re-applied to every labelled class and foreign parent).
+      a_violated      entries of possibly_empty=False strategies on a NON-EMPTY class with an empty child (the
+                      documented contract broken)
+      b_instances     entries of possibly_empty=False strategies whose rules go through add_rule (`applied`) on an
+                      EMPTY class: the situations clause (b) speaks about
+      b_violated      ... of which with an empty child: clause (b) broken (pe_contract false although (a) may hold)
+      b_run_instances ruledb.add calls of the real run for such an entry made by add_rule (via[i] = the i-th
+                      ruledb.add call came from CombinatorialSpecificationSearcher.add_rule, not from
+                      _symmetry_expand; recorded by the logging wrapper) - clause (b) exercised
+      b_run_violated  ... of which with an empty child: the searcher cached set_empty(child, False) for an empty class"""
+    em = u["empty"]
+    app = applied_sids(u)
+    m = {"a_violated": 0, "b_instances": 0, "b_violated": 0, "b_run_instances": 0, "b_run_violated": 0}
+    binst = {}
+    for sid, st in enumerate(u["strats"]):
+        if st["kind"] == "F" or norm_flags(st)[2]:
+            continue
+        for cs, e in st["apply"].items():
+            bad = any(em[k] for k in e["children"])
+            if not em[int(cs)]:
+                m["a_violated"] += int(bad)
+            elif sid in app:
+                m["b_instances"] += 1
+                m["b_violated"] += int(bad)
+                binst[(sid, int(cs))] = bad
+    if isinstance(out, list) and via is not None:
+        adds = [e for e in out[2] if e[0] == 0]
+        for e, through_add_rule in zip(adds, via):
+            if through_add_rule and (e[3], e[4]) in binst:
+                m["b_run_instances"] += 1
+                m["b_run_violated"] += int(binst[(e[3], e[4])])
+    return m
+
+
+def _word_oracle(case, res, u):
+    """What only a word case can get wrong: the tabulation itself. The generic oracle below then decides the
+    property from the tabulated table (= the pack's strategies re-applied to every labelled class directly)."""
+    out = res["out"]
+    classes = out[3]
+    if any(not (0 <= c < u["ncls"]) for c in classes):
+        return "a labelled class has no row in the tabulated table"
+    if classes and classes[0] != u["start"]:
+        return "label 0 does not carry the start class"
+    if case["db"] in (2, 3) and any(res.get("limits", {}).values()):
+        # strategy.shifts / is_reversible raised while tabulating: the forest keys cannot be predicted
+        return None
+    return None
+
+
+def _word_checks(ctx):
+    """MEASURED on the real word searches of this run: how often the hypotheses of the contract theorems hold on
+    real packs, how often clause (b) of pe_contract is needed / violated"""
+    idx = [i for i, c in enumerate(ctx.cases) if "words" in c]
+    n = len(idx)
+    tot = len(ctx.cases)
+    res = [("share of REAL word searches (tabulated and replayed by the model)", n > 0 or tot < 200,
+            "%d of %d cases" % (n, tot))]
+    if not n:
+        return res
+    agg = {"strong": 0, "sym": 0, "unary": 0, "a_viol": 0, "b_inst": 0, "b_viol": 0, "b_run": 0, "b_run_viol": 0,
+           "b_inst_n": 0, "b_viol_n": 0, "capped": 0, "limits": 0, "died": 0, "adds": 0, "labels": 0, "packs": set(),
+           "forest": 0, "nontable": 0}
+    for i in idx:
+        case, r = ctx.cases[i], ctx.impl_res[i][0]
+        u = universe_of(case, r)
+        out = r.get("out") if isinstance(r, dict) else None
+        if u is None or not isinstance(out, list):
+            agg["nontable"] += 1
+            continue
+        m = pe_measure(u, out, r.get("via_add_rule"))
+        agg["strong"] += int(strong_contract(u))
+        agg["sym"] += int(sym_contract(u))
+        agg["unary"] += int(sym_unary(u))
+        agg["a_viol"] += int(m["a_violated"] > 0)
+        agg["b_inst"] += int(m["b_instances"] > 0)
+        agg["b_viol"] += int(m["b_violated"] > 0)
+        agg["b_inst_n"] += m["b_instances"]
+        agg["b_viol_n"] += m["b_violated"]
+        agg["b_run"] += int(m["b_run_instances"] > 0)
+        agg["b_run_viol"] += int(m["b_run_violated"] > 0)
+        agg["capped"] += int(bool(r.get("capped")))
+        agg["limits"] += int(any(r.get("limits", {}).values()))
+        agg["died"] += int(out[0] != 0)
+        agg["adds"] += sum(1 for e in out[2] if e[0] == 0)
+        agg["labels"] += len(out[3])
+        agg["packs"].add(case["words"]["pack"].split("|")[0])
+        agg["forest"] += int(case["db"] in (2, 3))
+    res.append(("word searches: every one tabulated (strategies re-applied to all labelled classes and foreign parents)",
+                agg["nontable"] == 0, "%d of %d not tabulated; %d packs; %d ruledb.add calls, %d labels in total; %d under "
+                "RuleDBForest; %d cut at the packet budget; %d died; tabulator limits (shifts / is_reversible raised) hit in %d"
+                % (agg["nontable"], n, len(agg["packs"]), agg["adds"], agg["labels"], agg["forest"], agg["capped"],
+                   agg["died"], agg["limits"])))
+    res.append(("MEASURED coverage of the contract theorems on real packs: sym_contract (hypothesis of "
+                "C04_dropped_only_if_empty) / strong contract = pe_contract + sym_contract (C04_stored_key, "
+                "C04_set_empty_consistent, C04_empty_cache_truthful) / + sym_unary", True,
+                "sym_contract %d, strong %d, strong+sym_unary %d of %d word searches" % (agg["sym"], agg["strong"], agg["unary"] and
+                    sum(1 for i in idx if universe_of(ctx.cases[i], ctx.impl_res[i][0]) is not None
+                        and strong_contract(universe_of(ctx.cases[i], ctx.impl_res[i][0]))
+                        and sym_unary(universe_of(ctx.cases[i], ctx.impl_res[i][0]))), n)))
+    res.append(("MEASURED clause (b) of pe_contract on real packs (possibly_empty=False strategy applied - through "
+                "add_rule - to an EMPTY class)", True,
+                "documented clause (a) violated in %d searches; clause (b) has instances in %d searches (%d entries), "
+                "violated in %d searches (%d entries); exercised by the run itself (ruledb.add through add_rule for such an "
+                "entry) in %d searches, violated there (set_empty(child, False) cached for an empty class) in %d"
+                % (agg["a_viol"], agg["b_inst"], agg["b_inst_n"], agg["b_viol"], agg["b_viol_n"], agg["b_run"],
+                   agg["b_run_viol"])))
+    res.append(_pruned_replay(ctx, idx))
+    return res
+
+
+def prune_unpresented(u, out):
+    """The tabulator applies EVERY strategy to EVERY labelled class, empty ones included, although the searcher
+    rarely presents an empty class to a strategy; pe_contract's clause (b) then fails on entries no run touches.
+    Drop the offending entries (possibly_empty=False, applied, EMPTY class, empty child) for which the real run made
+    no ruledb.add call; whether the model still reproduces the real trace on the pruned table is CHECKED, not assumed."""
+    em = u["empty"]
+    app = applied_sids(u)
+    added = {(e[3], e[4]) for e in out[2] if e[0] == 0}
+    v = copy.deepcopy(u)
+    for sid, st in enumerate(v["strats"]):
+        if st["kind"] == "F" or norm_flags(st)[2] or sid not in app:
+            continue
+        for cs in list(st["apply"]):
+            if em[int(cs)] and any(em[k] for k in st["apply"][cs]["children"]) and (sid, int(cs)) not in added:
+                del st["apply"][cs]
+    return v
+
+
+def _pruned_replay(ctx, idx):
+    from harness import core
+
+    name = ("word searches failing pe_contract ONLY through never-presented entries: pruned table honours the strong "
+            "contract AND the model reproduces the real trace on it (so the contract theorems do cover the run)")
+    binary = os.path.join(core.WORK, ID, "ocaml", "model")
+    if not os.path.exists(binary):
+        return (name, False, "no extracted model")
+    encs, outs = [], []
+    nweak = 0
+    for i in idx:
+        case, r = ctx.cases[i], ctx.impl_res[i][0]
+        u = universe_of(case, r)
+        out = r.get("out") if isinstance(r, dict) else None
+        if u is None or not isinstance(out, list) or strong_contract(u):
+            continue
+        nweak += 1
+        v = prune_unpresented(u, out)
+        if not strong_contract(v):
+            continue
+        r2 = dict(r)
+        r2["u"] = v
+        encs.append(encode_with(case, r2))
+        outs.append(out)
+    got = core.run_model(binary, encs) if encs else []
+    same = sum(1 for o, g in zip(outs, got) if core.canon(o) == core.canon(g))
+    return (name, same == len(encs),
+            "%d word searches violate the strong contract as tabulated; %d honour it after pruning; the model reproduces "
+            "the real trace on the pruned table in %d of those" % (nweak, len(encs), same))
+
+
 def _sym_on_empty(u):
     em = u["empty"]
     for sid in u["pack"]["sym"]:
@@ -739,7 +1040,9 @@ def features(case, res):
     feats = set()
     if not isinstance(out, list):
         return feats
-    u = case["u"]
+    u = universe_of(case, res)
+    if u is None:
+        return feats
     events, classes = out[2], out[3]
     known = set(classes)
     symsids = set()
@@ -808,9 +1111,30 @@ def key(case):
 
 
 def classify(case, res):
-    u = case["u"]
+    u = universe_of(case, res)
     tags = ["db=%d" % case["db"], "ev=%d" % case["ev"], "drv=%d" % case["drv"], "comp=%d" % case["comp"]]
-    tags.append("contracts:" + ("strong" if strong_contract(u) else "sym-only" if sym_contract(u) else "none"))
+    tags.append("universe:" + ("words" if "words" in case else "table"))
+    if u is None:
+        return tags
+    tags.append("contracts:" + ("strong" if strong_contract(u) else "sym-only" if sym_contract(u) else
+                                "sym_fwd-only" if sym_fwd(u) else "none"))
+    if "words" in case:
+        # evidence: how often the theorems' hypotheses hold on REAL packs, and how often clause (b) of pe_contract
+        # (no empty child on an EMPTY class either, for strategies whose rules go through add_rule) matters
+        m = pe_measure(u, res.get("out"), res.get("via_add_rule"))
+        tags.append("words:pack=" + case["words"]["pack"].split("|")[0])
+        tags.append("words:contracts:" + ("strong" if strong_contract(u) else "sym-only" if sym_contract(u) else "none"))
+        tags.append("words:pe_clause_a:" + ("violated" if m["a_violated"] else "holds"))
+        tags.append("words:pe_clause_b:" + ("violated" if m["b_violated"] else "needed-and-holds" if m["b_instances"]
+                                            else "vacuous"))
+        if m["b_run_instances"]:
+            tags.append("words:pe_clause_b:exercised-by-the-run")
+        if m["b_run_violated"]:
+            tags.append("words:pe_clause_b:violated-in-the-run")
+        if res.get("capped"):
+            tags.append("words:capped")
+        if any(res.get("limits", {}).values()):
+            tags.append("words:tabulator-limit")
     out = res.get("out")
     if isinstance(out, list):
         tags.append("status=%d" % out[0])
@@ -827,6 +1151,20 @@ def classify(case, res):
 
 
 def shrink(case):
+    if "words" in case:
+        # a real word search: fewer packets, simpler configuration (the pack and the start class are not shrunk)
+        w = case["words"]
+        for m in (1, 2, 3, 4, 6, 8, 12, 20, 30):
+            if m < w["maxp"]:
+                c = copy.deepcopy(case)
+                c["words"]["maxp"] = m
+                yield c
+        for k in ("ev", "drv"):
+            if case[k]:
+                c = dict(case)
+                c[k] = 0
+                yield c
+        return
     u = case["u"]
 
     def with_u(v):
@@ -881,23 +1219,31 @@ def _compare_contracts(ctx):
         return ("contract predicates: harness vs Coq (extracted contractsb)", False, "no extracted model")
     encs, want = [], []
     for case, (r, _, _) in zip(ctx.cases, ctx.impl_res):
-        u = case["u"]
+        u = universe_of(case, r) or EMPTY_U
         packets = r.get("packets", []) if isinstance(r, dict) else []
         empty, strats, ver, sym = _enc_universe(u)
         encs.append([[100, 0, 0, 0, 0], empty, strats, ver, sym, packets, [], queue_pack(u)])
-        want.append(_contract_bits(u, packets))
+        want.append(_contract_bits(u, packets) + [int(sym_fwd(u))])
     got = core.run_model(binary, encs)
+    # mode 101: the decider of sym_fwd (Searcher/SymFwd.v sym_fwdb), hypothesis of the one-sided theorems
+    got1 = core.run_model(binary, [[[101] + e[0][1:]] + e[1:] for e in encs])
+    got = [list(g) + list(g1) if isinstance(g, list) and isinstance(g1, list) else [g, g1] for g, g1 in zip(got, got1)]
     bad = [(i, w, g) for i, (w, g) in enumerate(zip(want, got)) if w != g]
-    detail = "%d universes compared (pe, sym, sym_unary, packets_in, items_plain), %d disagree" % (len(encs), len(bad))
+    detail = "%d universes compared (pe, sym, sym_unary, packets_in, items_plain, sym_fwd), %d disagree" % (len(encs), len(bad))
     if bad:
         i, w, g = bad[0]
         detail += "; first: python %r, coq %r, failing input %s" % (w, g, json.dumps(ctx.cases[i])[:400])
-    return ("contract predicates: harness strong_contract == Coq contractsb on every universe", not bad, detail)
+    return ("contract predicates: harness strong_contract == Coq contractsb, harness sym_fwd == Coq sym_fwdb on every universe",
+            not bad, detail)
 
 
 def extra_checks(ctx):
     """distribution facts that make the run meaningful"""
     res = [_compare_contracts(ctx)]
+    res.extend(_word_checks(ctx))
+    allc, allr = ctx.cases, ctx.impl_res
+    keep = [i for i, c in enumerate(allc) if "u" in c]      # the table universes
+    ctx = type("TableCases", (), {"cases": [allc[i] for i in keep], "impl_res": [allr[i] for i in keep]})()
     tot = len(ctx.cases)
     nsymempty = sum(1 for c in ctx.cases if strong_contract(c["u"]) and _sym_on_empty(c["u"]))
     res.append(("strong universes with a symmetry entry on an EMPTY class (excluded by the former contracts)",
@@ -933,7 +1279,17 @@ LEVEL_TEXT = (
     "rule.children; the self-equivalence is never recorded), C04_labels / C04_labels_stable (different classes "
     "never share a label, a label never changes over later packets), C04_stored_key_partial (the key RuleDBBase "
     "stores is (label of the parent, sorted(selection of the labels of ALL children - of the first child for a "
-    "symmetry call))); nothing is dropped unless the strategy is possibly_empty). Under the two table contracts of "
+    "symmetry call))); nothing is dropped unless the strategy is possibly_empty). Under sym_contract ALONE (no "
+    "pe_contract, no condition on the packets; in fact under its forward half sym_fwd: the image of an EMPTY class under "
+    "a symmetry is empty): C04_dropped_only_if_empty / _fwd (the clause as worded: every child missing from a stored key "
+    "of RuleDBBase is a child of a possibly_empty rule AND its class's own is_empty says empty - _clean_labels only "
+    "consults is_empty for possibly_empty rules, and whatever the emptiness cache says EMPTY about is empty), "
+    "C04_set_empty_true_truthful, C04_cache_empty_truthful_one_sided - carried through the run by the one-sided "
+    "invariant EmptyOK1 of Searcher/OneSided*.v; sym_fwd is necessary and pe_contract cannot replace it "
+    "(C04_dropped_only_if_empty_needs_sym_fwd, C04_dropped_only_if_empty_conclusion_fails_without_sym_fwd: a concrete "
+    "run, replayed on the real code); sym_fwd is decided by the extracted sym_fwdb (C04_sym_fwd_decided; run_c04 mode "
+    "101), compared with the harness's sym_fwd on every retained universe, tabulated word searches included. The converse (a truly empty child of a possibly_empty rule IS dropped) needs "
+    "pe_contract (C04_kept_although_empty_without_pe_contract). Under the two table contracts of "
     "Searcher/Contracts.v (restated so that they are jointly satisfiable when a symmetry has an entry on an empty "
     "class: C04_old_contracts_exclude_each_other shows the former pair was not; decided by contractsb = the "
     "harness's strong_contract, compared on every generated universe) and for packets of pack strategies: "
@@ -945,9 +1301,18 @@ LEVEL_TEXT = (
     "The model is tied to comb_spec_searcher.py / rule_db/base.py / rule_db/forest.py by exact equality of the "
     "whole event trace (ruledb.add calls, searcher-issued set_empty, queue calls, equivalence edges, store and pop "
     "operations on the two rule stores, forest keys incl. reverse keys with the REGENERATED reverse_shifts) and of "
-    "the final class database, on real searches of table universes run to queue exhaustion; an independent Python "
-    "oracle decides from the table: parent label, pack membership, child labels, dropped/kept children, store "
-    "choice, forest keys, empty rules, set_empty truthfulness (strong universes only) - not label stability."
+    "the final class database, on real searches of table universes run to queue exhaustion AND (15% of the cases) "
+    "on real word searches with the packs of words_ext / words_c14 (symmetries, inferral, factories incl. foreign "
+    "parents, verification with packs, one-way rules, two expansion sets), cut after 4-45 packets, whose strategies "
+    "are tabulated after the search (re-applied to every labelled class and foreign parent) and replayed by the model; "
+    "an independent Python oracle decides from the table (for word searches: from that re-application): parent label, "
+    "pack membership, child labels, dropped children (under sym_fwd alone) / kept children (strong universes), store "
+    "choice, forest keys, empty rules, set_empty(.., True) and cache-says-empty truthfulness (under sym_fwd alone), "
+    "set_empty truthfulness both ways (strong universes only) - not label stability. The hypotheses of the contract "
+    "theorems are MEASURED on the real word searches (extra_checks / evidence tags words:*): sym_contract 100%; strong "
+    "contract " + W_STRONG + " as tabulated, " + W_PRUNED + " after removing entries no run touched (checked: the model "
+    "reproduces the real trace on the pruned table); clause (b) of pe_contract exercised by a run only in the two "
+    "contrived packs (" + W_REST + " of the word searches), and violated there."
 )
 LEVEL_NOTE = (
     "Trusted: Coq kernel, extraction + OCaml driver, the logging wrappers. The work queue and is_verified are "
@@ -955,11 +1320,18 @@ LEVEL_NOTE = (
     "theorems over packets of pack strategies). Not proved: "
     "that every empty child of a possibly_empty rule receives the forest's empty rule exactly once per label, "
     "completeness (every rule the table yields for an expanded packet is recorded), any characterisation of "
-    "forest keys / equivalence edges, that the yielding strategy belongs to the pack, and 'a dropped child is truly "
-    "empty' under sym_contract alone - these are covered by the trace correspondence and the oracle only. "
+    "forest keys / equivalence edges, and that the yielding strategy belongs to the pack - these are covered by the "
+    "trace correspondence and the oracle only. "
     "C04_stored_key_partial is the contract-free part of C04_stored_key. A run that exhausts the model's fuel or "
     "dies with an exception is covered by the theorems up to that point; fuel exhaustion was never observed "
     "(fuel = 2*classes+12). Code quirk modelled as is: RuleDBBase.add's `if ends == [start]: return` compares a "
     "tuple with a list and never fires, so a rule p -> (p, empty child) is stored as the equivalence (p, (p,)). "
-    "Real packs (word universes) are never run under C04."
+    "Word searches: the Tabulator is trusted (it re-applies the strategies; the model never sees a strategy object); "
+    "a search is cut at a packet budget, never run to a specification; RuleDBForgetStrategy's recomputation side "
+    "effects are rolled back as for tables. The theorems reach a word search only through its tabulated table: "
+    "'strategies are pure functions of the class' is an assumption the tabulation relies on. With the repo's own word "
+    "packs no run presents an empty class to a possibly_empty=False strategy through add_rule; only the contrived "
+    "EmptyParentFactory does (there the searcher caches set_empty(child, False) for an empty class with real "
+    "strategies - the phenomenon of C04_documented_contracts_insufficient_refuted; no alarm: the documented contract "
+    "does not forbid the pack, and C04_dropped_only_if_empty still holds of those runs)."
 )
